@@ -14,7 +14,7 @@ import (
 func init() {
 	register("C12",
 		"that the start offset is measured from the right Jie instant and converted without rounding loss (numeric); that ages/years line up with the birth year beyond the affine relations checked here (AX-AGE).",
-		r12_1, r12_2, r12_3, r12_4, r12_5, r12_6, r12_7, r03_3, r07_5)
+		r12_1, r12_2, r12_3, r12_4, r12_5, r12_6, r12_7, r12_8, r03_3, r07_5)
 }
 
 // evalBoolOnPath evaluates a boolean SSA value along a path given truth values for atoms.
@@ -196,54 +196,8 @@ func r12_2(c *Ctx, r *Report) {
 
 func r12_3(c *Ctx, r *Report) {
 	const rule = "R12.3"
-	r.rule(rule, "Chain arithmetic (affine forms). In NewDaYun, for index >= 1: startYear = Y + 10*(index-1), endYear = startYear + 9, startAge = startYear - birthYear + 1, endAge = startAge + 9 (hence end(i)+1 = start(i+1)); for index 0: startYear = birthYear, startAge = 1, endYear = Y - 1, endAge = Y - birthYear. LiuNian and XiaoYun year/age are the period's start year/age plus the index.")
-	fn := c.Fn(r, rule, "calendar.NewDaYun")
-	if fn != nil {
-		// name the two call results
-		names := map[ssa.Value]string{}
-		for _, b := range fn.Blocks {
-			for _, ins := range b.Instrs {
-				call, ok := ins.(*ssa.Call)
-				if !ok || call.Common().StaticCallee() == nil || call.Common().StaticCallee().Name() != "GetYear" {
-					continue
-				}
-				s := symExpr(c, call, nil, map[ssa.Value]string{}, 0)
-				if strings.Contains(s, "GetStartSolar") {
-					names[call] = "Y"
-				} else {
-					names[call] = "B"
-				}
-			}
-		}
-		forms := map[string][]string{}
-		for _, b := range fn.Blocks {
-			for _, ins := range b.Instrs {
-				st, ok := ins.(*ssa.Store)
-				if !ok {
-					continue
-				}
-				fa, ok := st.Addr.(*ssa.FieldAddr)
-				if !ok || !isIntType(st.Val.Type()) {
-					continue
-				}
-				forms[fieldKeyOf(fa)] = append(forms[fieldKeyOf(fa)], daYunForm(c, fn, st.Val, names, 0))
-			}
-		}
-		for k := range forms {
-			sort.Strings(forms[k])
-		}
-		want := map[string][]string{
-			"DaYun.startYear": {"+1*B", "+1*Y +10*index -10"},
-			"DaYun.startAge":  {"+1", "-1*B +1*Y +10*index -9"},
-			"DaYun.endYear":   {"+1*Y +10*index -1", "+1*Y -1"},
-			"DaYun.endAge":    {"-1*B +1*Y", "-1*B +1*Y +10*index"},
-		}
-		for _, k := range []string{"DaYun.startYear", "DaYun.startAge", "DaYun.endYear", "DaYun.endAge"} {
-			w := append([]string{}, want[k]...)
-			sort.Strings(w)
-			r.check(equalStrs(forms[k], w), rule, "calendar.NewDaYun: "+k, c.fnPos(fn), fmt.Sprintf("stored forms %v (B = birth year, Y = start year); required %v", forms[k], w))
-		}
-	}
+	r.rule(rule, "Chain arithmetic. NewDaYun (for periods 0, 1, 2, 3, 9) and Yun.GetDaYunBy (the four periods it lists) are followed by the evaluator with the civil birth year, the lunar year of the birth date and the year the fortunes start as three different numbers: for index >= 1: startYear = Y + 10*(index-1), endYear = startYear + 9, startAge = startYear - birthYear + 1, endAge = startAge + 9 (hence end(i)+1 = start(i+1)); for index 0: startYear = birthYear, startAge = 1, endYear = Y - 1, endAge = Y - birthYear. LiuNian and XiaoYun year/age are the period's start year/age plus the index (affine forms).")
+	daYunChain(c, r, rule)
 	for _, t := range []string{"calendar.NewLiuNian", "calendar.NewXiaoYun"} {
 		f := c.Fn(r, rule, t)
 		if f == nil {
